@@ -310,6 +310,17 @@ impl Interp {
     }
     /// pooled mode: run the next case in a fresh child frame of the stdlib frame
     pub fn fresh_frame(&mut self) {
+        // closures defined by the previous case hold their frame and the frame holds them (an Rc
+        // cycle): overwrite the previous frame's bindings so that it can be freed
+        if !Rc::ptr_eq(&self.it.env, &self.base) {
+            let names: Vec<String> = {
+                let mut defs = self.it.env.iter_local_definitions();
+                (&mut *defs).map(|(n, _)| n.clone()).collect()
+            };
+            for n in names {
+                self.it.env.define(n, Value::Void);
+            }
+        }
         self.it.env = Rc::new(LexicalScope::new_child(self.base.clone()));
     }
     pub fn eval(&mut self, text: &str) -> Outcome {
